@@ -70,6 +70,23 @@ func (t *pushTarget) OnReadRtmpAvMsg(msg base.RtmpMsg) {
 	t.msgs = append(t.msgs, msg.Clone())
 }
 
+// hookRecorder counts what the stream hook is told, per input epoch
+type hookRecorder struct {
+	mu     sync.Mutex
+	epochs []*hookEpoch
+}
+type hookEpoch struct {
+	msgs  int
+	stops int
+}
+type hookCtx struct {
+	r *hookRecorder
+	e *hookEpoch
+}
+
+func (h *hookCtx) OnMsg(msg base.RtmpMsg) { h.r.mu.Lock(); h.e.msgs++; h.r.mu.Unlock() }
+func (h *hookCtx) OnStop()                { h.r.mu.Lock(); h.e.stops++; h.r.mu.Unlock() }
+
 type fanConsumer struct {
 	id   uint64
 	kind byte // r f w p t
@@ -212,7 +229,19 @@ func runFanoutHistory(cfgTok, evTok string) string {
 		cfg.RelayPushConfig.AddrList = []string{addr}
 	}
 
-	group := logic.NewGroup("live", "s", &cfg, logic.GroupOption{}, nopGroupObserver{})
+	opt := logic.GroupOption{}
+	var hooks *hookRecorder
+	if kv["hook"] != 0 {
+		hooks = &hookRecorder{}
+		opt = logic.VerifGroupOptionWithHook(func(uniqueKey string, streamName string) logic.ICustomizeHookSessionContext {
+			e := &hookEpoch{}
+			hooks.mu.Lock()
+			hooks.epochs = append(hooks.epochs, e)
+			hooks.mu.Unlock()
+			return &hookCtx{hooks, e}
+		})
+	}
+	group := logic.NewGroup("live", "s", &cfg, opt, nopGroupObserver{})
 	var pubSession *rtmp.ServerSession
 	var pubConn *fakeConn
 	consumers := map[uint64]*fanConsumer{}
@@ -484,6 +513,16 @@ func runFanoutHistory(cfgTok, evTok string) string {
 			rl = []string{"-"}
 		}
 		parts = append(parts, "rec="+strings.Join(rl, "/"))
+	}
+	if hooks != nil {
+		var hs []string
+		for _, e := range hooks.epochs {
+			hs = append(hs, fmt.Sprintf("%d:%d", e.msgs, e.stops))
+		}
+		if len(hs) == 0 {
+			hs = []string{"-"}
+		}
+		parts = append(parts, "hook="+strings.Join(hs, "/"))
 	}
 	for _, c := range consumers {
 		c.conn.Close()
